@@ -95,6 +95,8 @@ def apply_mutation(env, label, m):
         env.mode = MODES[m[1]]
     elif m[0] == "override_filter":
         env.add_filter("upcase", lambda v, _l=label: "%s<UP:%s>" % (v, _l))
+    elif m[0] == "instance_flag":
+        setattr(env, m[1], m[2])       # a feature flag set on the instance, not the class
 
 
 def tree_for(tree, recipe):
@@ -306,7 +308,7 @@ class C11:
                         break
         for i in range(rng.randint(2, 5)):
             recipe = dict(base)
-            if rng.chance(0.5):
+            if rng.chance(0.35):
                 f = rng.choice(G.FLAG_NAMES)
                 recipe["flags"] = {**recipe["flags"], f: not recipe["flags"][f]}
             if rng.chance(0.3):
@@ -333,7 +335,8 @@ class C11:
                 op["data"] = rng.randrange(len(datas))
             elif k == "mutate":
                 op["m"] = rng.choice([["add_filter", "mark2"], ["add_tag"], ["mode", rng.choice(["strict", "lax", "warn"])],
-                                      ["override_filter"], ["add_filter", "mark"]])
+                                      ["override_filter"], ["add_filter", "mark"],
+                                      ["instance_flag", rng.choice(G.FLAG_NAMES), rng.chance(0.5)]])
             elif k == "implicit":
                 op["tree"] = rng.randrange(len(trees))
                 op["data"] = rng.randrange(len(datas))
